@@ -393,6 +393,8 @@ class Executor(object):
         if decl is None:
             return None
         v = self.fresh_of(decl, "%s.%s" % (obj.name, field))
+        if isinstance(v, Obj) and obj.allocated:
+            v.allocated = True          # the representation of a newly created object is new as well
         self.field_init[k] = v
         return v
 
@@ -1094,6 +1096,8 @@ class Executor(object):
 
     def loop_ghost_step(self, st, lc):
         new = {}
+        for g in lc.get("ghost", {}):
+            st.ghost["old_" + g] = st.ghost.get(g)        # value before this iteration's update (for step hints)
         for g, (sort, init, step) in lc.get("ghost", {}).items():
             v, facts = self.spec_value(st, self.pre_state, step, self.spec_scope(st))
             st.pc.extend(facts)
@@ -2000,6 +2004,8 @@ class Executor(object):
         result = None
         if beh.result and beh.result != "none":
             result = self.fresh_of(beh.result, "%s.result@L%d" % (name, ln))
+            if isinstance(result, Obj):
+                result.allocated = True        # an object-valued result of a callee is a newly created object
             self.type_invariants(ok, [result])
         env2 = dict(env, result=result)
         self.apply_sets(ok, pre, env, beh.sets)
